@@ -521,7 +521,7 @@ fn main() {
         let n_rs = ctx.tier.pick(400usize, 30_000);
         // ---- RaptorQ with 65 535 repair symbols per block: encoding symbol ids above 2^16 (the ESI field is 24 bits wide).
         // The receiver gets the FDT, the repair symbols with ESI >= 65 536 in random order, then a few other symbols
-        let n_hi = ctx.tier.pick(6usize, 60);
+        let n_hi = ctx.tier.pick(12usize, 60);
         gens.push(Gen::new("esi_above_16_bits", n_hi, move |ctx, i| {
             let mut rng = Rng::keyed(ctx.seed, "C03hi", 0, i as u64);
             let mut cr = CaseResult::default();
